@@ -7,3 +7,7 @@ pub assume_specification [core::cmp::Ordering::is_ge] (o: Ordering) -> (r: bool)
     ensures r == (o != Ordering::Less);
 pub assume_specification [core::cmp::Ordering::is_le] (o: Ordering) -> (r: bool)
     ensures r == (o != Ordering::Greater);
+// <[T]>::to_vec: element-wise clone; assumed to yield equal elements (Clone of the element types
+// involved here is derived / structural)
+pub assume_specification<T: Clone> [<[T]>::to_vec] (s: &[T]) -> (r: Vec<T>)
+    ensures r@ == s@;
